@@ -660,19 +660,21 @@ int vnacal_save(vnacal_t *vcp, const char *pathname)
     bool delete_document = false;
     bool delete_emitter = false;
     int t_root, t_properties, t_calibrations;
+    char *previous_filename = vcp->vc_filename;
 
     {
 	char *copy;
 
-	/* pathname may be vnacal_get_filename(vcp): copy, then free */
+	/*
+	 * pathname may be vnacal_get_filename(vcp): copy first.  The
+	 * previous name is kept until the save has succeeded: a failed
+	 * save leaves vnacal_get_filename as it was.
+	 */
 	if ((copy = strdup(pathname)) == NULL) {
 	    _vnacal_error(vcp, VNAERR_SYSTEM,
 		    "strdup: %s", strerror(errno));
-	    free((void *)vcp->vc_filename);
-	    vcp->vc_filename = NULL;
 	    return -1;
 	}
-	free((void *)vcp->vc_filename);
 	vcp->vc_filename = copy;
 	pathname = copy;
     }
@@ -1007,6 +1009,7 @@ int vnacal_save(vnacal_t *vcp, const char *pathname)
 		vcp->vc_filename, strerror(errno));
 	goto error;
     }
+    free((void *)previous_filename);
     return 0;
 
 error:
@@ -1020,6 +1023,6 @@ error:
 	(void)fclose(fp);
     }
     free((void *)vcp->vc_filename);
-    vcp->vc_filename = NULL;
+    vcp->vc_filename = previous_filename;
     return -1;
 }
